@@ -199,7 +199,19 @@ def gen_bspec(rng, pool, kinds=None, malformed=False):
                 vs = vs + [rng.choice(extra)]
             else:
                 vs = vs[:-1]
-    return dict(k="fun", fk=("expr" if k == "expr" else "py"), params=params, body=body, vars=vs, fkw=fkw), wf
+    spec = dict(k="fun", fk=("expr" if k == "expr" else "py"), params=params, body=body, vars=vs, fkw=fkw)
+    if k == "expr" and rng.random() < 0.3:
+        # external definition: the expression is `source.cost(<params>)`, `source` being a python file given to
+        # ExpressionFunction(..., source_file=...).  Two or three files define the same function name with
+        # different bodies; one relation is built per file, in order, with the SAME expression text; the
+        # relation under test is number `which` (its definition is `body`)
+        n = rng.choice([2, 2, 3])
+        bodies = [gen_expr(rng, params) for _ in range(n)]
+        which = rng.randrange(n)
+        spec["body"] = bodies[which]
+        spec["ext"] = dict(bodies=bodies, which=which,
+                           cfed=bool(fkw and wf and rng.random() < 0.4))   # via constraint_from_external_definition
+    return spec, wf
 
 
 def spec_vars(s):
@@ -321,7 +333,8 @@ def gen_sub(rng):
     # slicing TREE (relations must not be changed by slicing them): intermediate relations of the chain are
     # probed again after all the later slices were taken, and a second slice is taken from one of them
     inter, branch = [], []
-    if steps and valid:
+    ext = [b for b in ([spec.get("c"), spec.get("t")] if spec["k"] == "cond" else [spec]) if b and b.get("ext")]
+    if valid and (steps or ext):
         def some_comps(rem, k):
             cs = [[]]
             for v in rem:
@@ -333,10 +346,10 @@ def gen_sub(rng):
                 rng.shuffle(c)
                 out.append(dict(c=c, full=True))
             return out
-        for i in range(len(steps)):
-            if rng.random() < 0.5:
+        for i in range(len(steps) + (1 if ext else 0)):
+            if ext or rng.random() < 0.5:      # external definitions: every relation of the chain, the last included
                 inter.append(dict(i=i, probes=some_comps(rems[i], 2)))
-        if rng.random() < 0.4:
+        if steps and rng.random() < 0.4:
             i = rng.randrange(len(steps))
             keys = rng.sample(rems[i], min(rng.choice([1, 1, 2]), len(rems[i])))
             qd = [[v, rng.choice(doms[str(v)])] for v in keys]
@@ -377,6 +390,16 @@ def _canon(fn):
 
 
 def _drive_sub(sub):
+    holder = {}
+    try:
+        return _drive_sub0(sub, holder)
+    finally:
+        if "dir" in holder:
+            import shutil
+            shutil.rmtree(holder["dir"], ignore_errors=True)
+
+
+def _drive_sub0(sub, holder):
     from pydcop.dcop.objects import Variable, Domain
     from pydcop.dcop import relations as R
     from pydcop.utils.expressionfunction import ExpressionFunction
@@ -408,6 +431,10 @@ def _drive_sub(sub):
             return R.NeutralRelation([V(i) for i in s["vars"]], "n")
         if k == "mat":
             return R.NAryMatrixRelation([V(i) for i in s["vars"]], nest(s["shape"], s["data"]), "m")
+        if s["fk"] == "expr" and s.get("ext"):
+            rels = [ext_relation(s, tag, j) for j in range(len(s["ext"]["bodies"]))]
+            ext_tags.append((s, tag))
+            return rels[s["ext"]["which"]]
         if s["fk"] == "expr":
             f = ExpressionFunction(py_expr(s["body"]))
             params_obs[tag] = [ident(n) for n in f.exp_vars]     # the set's iteration order
@@ -416,6 +443,32 @@ def _drive_sub(sub):
             exec("def f(%s):\n    return %s\n" % (", ".join(name(p) for p in s["params"]), py_expr(s["body"])), ns)
             f = ns["f"]
         return R.NAryFunctionRelation(f, [V(i) for i in s["vars"]], "f", f_kwargs=s["fkw"])
+
+    ext_tags, keep = [], []
+
+    def ext_relation(s, tag, j):
+        """the relation defined by source file number j: def cost(a0, ..): <body j over the params>"""
+        import tempfile
+        if "dir" not in holder:
+            holder["dir"] = tempfile.mkdtemp(prefix="c11src_")
+        path = os.path.join(holder["dir"], "src_%s_%d_%d.py" % (tag or "r", j, len(keep)))
+        ps = [name(p) for p in s["params"]]
+        with open(path, "w") as fh:
+            fh.write("def cost(%s):\n" % ", ".join("a%d" % i for i in range(len(ps))))
+            if ps:
+                fh.write("    %s = %s\n" % (", ".join(ps) + ("," if len(ps) == 1 else ""),
+                                            ", ".join("a%d" % i for i in range(len(ps))) + ("," if len(ps) == 1 else "")))
+            fh.write("    return %s\n" % py_expr(s["ext"]["bodies"][j]))
+        text = "source.cost(%s)" % ", ".join(ps)
+        if s["ext"]["cfed"]:
+            rel = R.constraint_from_external_definition("f", path, text, [V(i) for i in s["vars"]])
+            f = rel.function
+        else:
+            f = ExpressionFunction(text, source_file=path)
+            rel = R.NAryFunctionRelation(f, [V(i) for i in s["vars"]], "f", f_kwargs=s["fkw"])
+        params_obs[tag] = [ident(n) for n in f.exp_vars]
+        keep.append(rel)
+        return rel
 
     def build():
         s = sub["spec"]
@@ -452,6 +505,10 @@ def _drive_sub(sub):
                                   "probes": _probe(R, rb, b["probes"])})
         except Exception as e:
             obs["branch"].append({"sliced": {"err": type(e).__name__}, "probes": []})
+    # external definitions: one more relation from ANOTHER source file is created before the relations of
+    # the chain are evaluated again
+    for s_, tag_ in ext_tags:
+        ext_relation(s_, tag_, (s_["ext"]["which"] + 1) % len(s_["ext"]["bodies"]))
     for it in sub.get("inter", []):
         obs["inter"].append(_probe(R, chain[it["i"]], it["probes"]) if it["i"] < len(chain) else None)
     return obs
@@ -644,7 +701,7 @@ def sub_failures(sub, o):
             return [("constructing a well-formed %s relation raised %s" % (s["k"], o["built"]["err"]), None)]
         if sorted(o["built"]["ok"]) != names:
             return [("dimensions %r of the new relation, expected the variables %r" % (o["built"]["ok"], names), None)]
-        if s["k"] != "cond" and o["built"]["ok"] != spec_vars(s):
+        if s["k"] != "cond" and o["built"]["ok"] != spec_vars(s) and not (s.get("ext") or {}).get("cfed"):
             return [("dimensions %r are not in the order given %r" % (o["built"]["ok"], spec_vars(s)), None)]
     out.extend(exc_failures(sub, o))
     if out or not sub["valid"] or "err" in o["built"]:
@@ -775,7 +832,8 @@ def _bspec(s, doms, params, built_failed=False):
             params = expr_fv(s["body"])      # construction raised before this function was built
         if params is None:
             raise ValueError("no exp_vars order observed for an expression function")
-        return "(SFun FExpr %s %s %s %s)" % (q.zlist(params), coq_expr(s["body"]), _vars(s["vars"], doms), q.b(s["fkw"]))
+        vs = params if (s.get("ext") or {}).get("cfed") and not built_failed else s["vars"]   # cfed: variables in set order
+        return "(SFun FExpr %s %s %s %s)" % (q.zlist(params), coq_expr(s["body"]), _vars(vs, doms), q.b(s["fkw"]))
     return "(SFun FPy %s %s %s %s)" % (q.zlist(s["params"]), coq_expr(s["body"]), _vars(s["vars"], doms), q.b(s["fkw"]))
 
 
@@ -852,6 +910,8 @@ def histogram(cases, obs):
         for s, o in zip(c["subs"], ob):
             h["sub_cases"] += 1
             kd = _kind(s["spec"])
+            if '"ext"' in json.dumps(s["spec"]):
+                h["external_definition"] = h.get("external_definition", 0) + 1
             kd = "cond" if kd.startswith("cond") else kd
             h["kind_" + kd] = h.get("kind_" + kd, 0) + 1
             h["steps_%d" % len(s["steps"])] = h.get("steps_%d" % len(s["steps"]), 0) + 1
